@@ -167,7 +167,7 @@ def poc_fit_constant_line(force, ret_details=False):
 
     cp = np.nan
     details = {}
-    if force.size > 4:  # 3 fit parameters
+    if force.size > 4 and force.max() > force.min():  # 3 fit parameters
         # normalize force
         fmin = np.min(force)
         fptp = np.max(force) - fmin
@@ -183,7 +183,7 @@ def poc_fit_constant_line(force, ret_details=False):
         params.add('m', value=(1 - y[x0])/(x.size - x0))
 
         out = lmfit.minimize(residual, params, args=(x, y), method="nelder")
-        if out.success:
+        if out.success and 0 <= out.params["x0"].value < y.size:
             cp = int(out.params["x0"])
             if ret_details:
                 details["plot force"] = [x, force]
@@ -250,7 +250,7 @@ def poc_fit_constant_polynomial(force, ret_details=False):
 
     cp = np.nan
     details = {}
-    if force.size > 6:  # 5 fit parameters
+    if force.size > 6 and force.max() > force.min():  # 5 fit parameters
         fmin = np.min(force)
         fptp = np.max(force) - fmin
         y = (force - fmin) / fptp
@@ -274,7 +274,7 @@ def poc_fit_constant_polynomial(force, ret_details=False):
 
         out = lmfit.minimize(residual, params, args=(x, y), method="nelder")
 
-        if out.success:
+        if out.success and 0 <= out.params["x0"].value < y.size:
             cp = int(out.params["x0"])
             if ret_details:
                 details["plot force"] = [x, force]
@@ -350,7 +350,7 @@ def poc_fit_line_polynomial(force, ret_details=False):
 
     cp = np.nan
     details = {}
-    if force.size > 7:  # 6 fit parameters
+    if force.size > 7 and force.max() > force.min():  # 6 fit parameters
         fmin = np.min(force)
         fptp = np.max(force) - fmin
         y = (force - fmin) / fptp
@@ -376,7 +376,7 @@ def poc_fit_line_polynomial(force, ret_details=False):
 
         out = lmfit.minimize(residual, params, args=(x, y), method="nelder")
 
-        if out.success:
+        if out.success and 0 <= out.params["x0"].value < y.size:
             cp = int(out.params["x0"])
             if ret_details:
                 details["plot force"] = [x, force]
@@ -410,6 +410,9 @@ def poc_frechet_direct_path(force, ret_details=False):
     contact point. For shorter baselines, the contact point will
     be closer to the point of maximum indentation.
     """
+    if force.size == 0 or force.max() == force.min():
+        # degenerate data (e.g. no baseline or no indentation part)
+        return (np.nan, {}) if ret_details else np.nan
     x = np.linspace(0, 1, len(force), endpoint=True)
     y = (force - force.min()) / (force.max() - force.min())
 
